@@ -29,6 +29,8 @@ def gen_case(rng, n_ops, faults=False, crashes=False):
         out.append(f"sess {s} {u} {lvl} {bg}".strip())
     ntop = 0
     contents = 0
+    chans = set()       # channel-enabled group topics: U2 and U3 come to them as channel readers (`chn:` spelling), U1 and U4 as subscribers
+    readers = ("U2", "U3")
     att = {}            # topic -> sessions that probably are attached (a guess: used only to bias the choice of actors)
     for _ in range(n_ops):
         s, su, lvl, _ = rng.choice(sess)
@@ -61,6 +63,13 @@ def gen_case(rng, n_ops, faults=False, crashes=False):
             asx = f" as={rng.choice(users)}"
         if p2p:
             asx = ""        # on-behalf-of requests are exercised on group topics only
+        ischan = (not p2p) and t in chans
+        rd = ischan and su in readers
+        if ischan:
+            asx = ""
+            if rd and k >= 82 and k < 96:
+                k = rng.choice([10, 25, 40, 55, 65, 75, 95])     # a reader sticks to sub/leave/pub/note/get/setsub(self)/deltopic
+        ta = ("chn:" + t) if (ischan and (rd != rng.chance(1, 20))) else t
         if (ntop == 0 and not p2p) or k < 4:
             if ntop >= 3:
                 continue
@@ -73,36 +82,42 @@ def gen_case(rng, n_ops, faults=False, crashes=False):
                 o += f" priv=pv{rng.below(5)}"
             if rng.chance(1, 3):
                 o += f" pub=pb{rng.below(5)}"
+            if su not in readers and rng.chance(1, 3):
+                o += " chan=1"
+                chans.add(f"T{ntop + 1}")
+                asx = ""
             out.append(o + asx)
             ntop += 1
             att.setdefault(f"T{ntop}", set()).add(s)
             continue
         if k < 22:
-            o = f"sub {s} {t}"
+            o = f"sub {s} {ta if not p2p else t}"
             if rng.chance(1, 3):
                 o += f" mode={pick_mode(rng)}"
             if rng.chance(1, 6):
                 o += f" priv={rng.choice(['pv1', 'pv2', 'null'])}"
         elif k < 32:
-            o = f"leave {s} {t}" + (" unsub=1" if rng.chance(1, 3) else "")
+            o = f"leave {s} {ta if not p2p else t}" + (" unsub=1" if rng.chance(1, 3) else "")
         elif k < 52:
             contents += 1
-            o = f"pub {s} {t} C{contents}"
+            o = f"pub {s} {ta if not p2p else t} C{contents}"
             if rng.chance(1, 5):
                 o += " noecho=1"
             if rng.chance(1, 6):
                 o += f" head=" + rng.choice(["mime:text", "sender:U3", "x:y;sender:U1", "replace:m1"])
         elif k < 62:
-            o = f"note {s} {t} {rng.choice(['read', 'read', 'recv', 'recv', 'kp', 'bogus'])} {rng.choice([0, 1, 2, 3, 5, 8, -1, contents, contents + 1])}"
+            o = f"note {s} {ta if not p2p else t} {rng.choice(['read', 'read', 'recv', 'recv', 'kp', 'bogus'])} {rng.choice([0, 1, 2, 3, 5, 8, -1, contents, contents + 1])}"
         elif k < 72:
             what = rng.choice(["desc", "sub", "data", "data", "del", "desc", "sub", "data", "data", "del", "bogus"])
-            o = f"get {s} {t} {what}"
+            o = f"get {s} {ta if not p2p else t} {what}"
             if what in ("data", "del") and rng.chance(1, 2):
                 o += f" since={rng.below(6)} before={rng.below(8)} limit={rng.choice([0, 1, 2, 100])}"
         elif k < 82:
-            o = f"setsub {s} {t}"
-            if rng.chance(3, 4):
-                o += f" user={rng.choice(users)}"
+            o = f"setsub {s} {ta if not p2p else t}"
+            if rd:
+                pass                      # a reader changes the own mode only
+            elif rng.chance(3, 4):
+                o += f" user={rng.choice([u for u in users if not (ischan and u in readers)])}"
             if rng.chance(5, 6):
                 o += f" mode={pick_mode(rng)}"
         elif k < 86:
@@ -125,7 +140,7 @@ def gen_case(rng, n_ops, faults=False, crashes=False):
         elif k < 95:
             o = f"delsub {s} {t} {rng.choice(users)}"
         elif k < 96:
-            o = f"deltopic {s} {t}" + (" hard=1" if rng.chance(1, 2) else "")
+            o = f"deltopic {s} {ta if not p2p else t}" + (" hard=1" if rng.chance(1, 2) else "")
         elif k < 97:
             out.append(rng.choice(["fg S5", "fg S5", f"drop {s}", "drop S5"]))
             continue
@@ -173,7 +188,9 @@ def _maybe_restart(rng, out, p=6):
 def scenario(rng):
     """one short history aimed at a clause of the properties, with its parameters drawn at random; restarts are sprinkled in so
     that the same clause is also exercised on a reloaded topic"""
-    k = rng.below(14)
+    k = rng.below(16)
+    if k >= 14:
+        return scenario_chan(rng)
     if k >= 11:
         return scenario_p2p(rng, k)
     out = _preamble(rng, maxsubs=rng.choice([32, 32, 3]))
@@ -305,6 +322,55 @@ def scenario(rng):
         out.append("restart")
         out.append(f"sub {ms} {T}")
         out.append(f"get {ms} {T} sub")
+    return out
+
+
+def scenario_chan(rng):
+    """channel clauses: readers get every message once, under the channel name and without its author; subscribers get it under the
+    group name with the author; notes are not relayed to readers; the push goes to the subscribers individually and to the channel
+    address; a reader's session which leaves, drops or goes foreground is accounted for"""
+    out = _preamble(rng)
+    owner, ou = rng.choice([("S1", "U1"), ("S6", "U4")])
+    sub_s, sub_u = ("S6", "U4") if owner == "S1" else ("S1", "U1")          # an ordinary subscriber
+    out.append(f"newgrp {owner} chan=1" + rng.choice(["", " pub=pbC", " auth=JRWPS anon=N"]))
+    T, C = "T1", "chn:T1"
+    rd = [("S2", "U2"), ("S5", "U2"), ("S3", "U3"), ("S7", "U3")]             # S5 is a background session
+    n = [0]
+
+    def pub(s):
+        n[0] += 1
+        out.append(f"pub {s} {T} C{n[0]}" + rng.choice(["", "", " noecho=1", " head=mime:text"]))
+
+    out.append(f"setsub {owner} {T} user={sub_u} mode={rng.choice(['JRWPS', 'JRWP', 'JRW', 'JR'])}")
+    out.append(f"sub {sub_s} {T}")
+    for s, u in rd:
+        if rng.chance(2, 3):
+            out.append(f"sub {s} {C}" + rng.choice(["", "", " mode=JR", " mode=JRP", " priv=pvR"]))
+    pub(owner)
+    steps = [lambda: pub(owner), lambda: pub(sub_s), lambda: out.append(f"pub S2 {C} CX"),
+             lambda: out.append(f"note {rng.choice(['S2', 'S3', 'S7'])} {C} {rng.choice(['read', 'recv'])} {max(1, n[0])}"),
+             lambda: out.append(f"note {rng.choice([owner, sub_s])} {T} {rng.choice(['read', 'recv', 'kp'])} {rng.choice([0, max(1, n[0])])}"),
+             lambda: out.append(f"get {rng.choice(['S2', 'S3', 'S5', 'S7'])} {C} {rng.choice(['data', 'desc', 'sub', 'del'])}"),
+             lambda: out.append(f"get {rng.choice([owner, sub_s])} {T} {rng.choice(['data', 'desc', 'sub'])}"),
+             lambda: out.append(f"leave {rng.choice(['S2', 'S3', 'S5', 'S7'])} {C}" + rng.choice(["", "", " unsub=1"])),
+             lambda: out.append(f"sub {rng.choice(['S2', 'S3', 'S5', 'S7'])} {C}" + rng.choice(["", " mode=JR", " priv=pvS"])),
+             lambda: out.append(rng.choice(["fg S5", "drop S5", "drop S3", "drop S2"])),
+             lambda: out.append(f"setsub {rng.choice(['S2', 'S3', 'S7'])} {C} mode={rng.choice(['JR', 'JRP', 'JRWPS', 'N', 'RP'])}"),
+             lambda: out.append(f"leave {rng.choice(['S2', 'S3'])} {T}"),
+             lambda: out.append(f"deltopic {rng.choice(['S2', 'S3'])} {C}"),
+             lambda: out.append(f"delmsg {owner} {T} 1:{max(2, n[0])}" + rng.choice(["", " hard=1"]))]
+    for _ in range(6 + rng.below(8)):
+        rng.choice(steps)()
+        if rng.chance(1, 12):
+            out.append("restart")
+            out.append(f"sub {owner} {T}")
+            out.append(f"sub S3 {C}")
+    pub(owner)
+    out.append(f"get S3 {C} data")
+    out.append(f"get {owner} {T} sub")
+    if rng.chance(1, 3):
+        out.append(f"deltopic {owner} {T}" + rng.choice(["", " hard=1"]))
+        out.append(f"sub S2 {C}")
     return out
 
 
